@@ -851,8 +851,12 @@ class Contents:
     tagged '<tag>-<phase>'; [conf]: `actor = source % <tag>-interp` (+ for a suite: `status = FAIL`; for a case:
     `status = PASS`); a suite may set the preprocessor `pp-<tag>`.  Every line ends with PPTOKEN."""
 
-    def __init__(self, tag: str, mask: int, pp: bool = False):
+    def __init__(self, tag: str, mask: int, pp: bool = False, actor_tag: Optional[str] = None, pp_tag: Optional[str] = None):
         self.tag, self.mask, self.pp = tag, mask, pp
+        # the interpreter of the actor / the preprocessor program may be named by another tag than the phase lines
+        # (hierarchies of suites: the same actor / preprocessor in several suites)
+        self.actor_tag = tag if actor_tag is None else actor_tag
+        self.pp_tag = tag if pp_tag is None else pp_tag
 
     def phase_line(self, phase: str) -> str:
         return '%% %s-%s %s' % (self.tag, phase, PP_TOKEN)
@@ -862,9 +866,9 @@ class Contents:
         if self.mask & B_CONF or (is_suite and self.pp):
             ls.append('[conf]')
             if is_suite and self.pp:
-                ls.append('preprocessor = pp-%s' % self.tag)
+                ls.append('preprocessor = pp-%s' % self.pp_tag)
             if self.mask & B_CONF:
-                ls.append('actor = source %% %s-interp' % self.tag)
+                ls.append('actor = source %% %s-interp' % self.actor_tag)
                 ls.append('status = FAIL' if is_suite else 'status = PASS')
         for bit, phase in _PHASE_OF_BIT:
             if self.mask & bit:
@@ -903,8 +907,8 @@ def expected_case_run(suite: Optional[Contents], case: Contents, case_file: str,
     ev = []
     token = PP_TOKEN
     if suite is not None and suite.pp:
-        ev.append(('pp', ('pp-' + suite.tag, case_file), 'W/' + case_dir, None, None, None, None, None, ()))
-        token = 'pp' + suite.tag  # the preprocessor transforms the case file (not the lines of the suite)
+        ev.append(('pp', ('pp-' + suite.pp_tag, case_file), 'W/' + case_dir, None, None, None, None, None, ()))
+        token = 'pp' + suite.pp_tag  # the preprocessor transforms the case file (not the lines of the suite)
     smask = suite.mask if suite is not None else 0
 
     def line_of(c: Contents, phase: str, tok: str) -> List[str]:
@@ -912,9 +916,9 @@ def expected_case_run(suite: Optional[Contents], case: Contents, case_file: str,
 
     # [conf]: the suite's instructions first, the case's after: the case's settings win
     if case.mask & B_CONF:
-        interp, ident = case.tag + '-interp', 'PASS'
+        interp, ident = case.actor_tag + '-interp', 'PASS'
     elif smask & B_CONF:
-        interp, ident = suite.tag + '-interp', 'XPASS'
+        interp, ident = suite.actor_tag + '-interp', 'XPASS'
     else:
         interp, ident = None, 'PASS'
     act_lines = []
@@ -1021,6 +1025,116 @@ def k3_ok(observations) -> bool:
         if exp is None or obs != exp:
             return False
     return True
+
+
+# ----------------------------------------------------------------------------- K3: hierarchies of suites
+
+HIER_SHAPES = ('one-sub', 'siblings', 'chain')
+PP_NONE, PP_OWN, PP_SHARED = 0, 1, 2
+PP_KINDS = ('no preprocessor', 'a preprocessor of its own (pp-<suite>)', 'the preprocessor pp-x (same in every suite that has it)')
+SHARED_TAG = 'x'
+
+
+def hier_suite_tags(shape: str) -> Tuple[str, ...]:
+    return ('r', 'a') if shape == 'one-sub' else ('r', 'a', 'b')
+
+
+def hier_contents(tag: str, mask: int, pp_kind: int, shared_actor: bool) -> Contents:
+    """The contents of the suite `tag` of a hierarchy: the phase lines always carry the tag of the suite (so the
+    contents of two suites always differ where both have some); the actor / the preprocessor are the suite's own or
+    the ones every suite uses."""
+    return Contents(tag, mask, pp_kind != PP_NONE,
+                    actor_tag=SHARED_TAG if shared_actor else tag,
+                    pp_tag=SHARED_TAG if pp_kind == PP_SHARED else tag)
+
+
+class HierCase:
+    def __init__(self, path: str, suite_tag: str, suite_path: str, contents: Contents):
+        self.path = path  # relative to the world
+        self.dir, self.file = os.path.split(path)
+        self.suite_tag = suite_tag  # the suite that lists it
+        self.suite_path = suite_path
+        self.contents = contents
+
+
+def hier_fixture(shape: str, suites: Dict[str, Contents], n_cases: Dict[str, int], cmask: int, order: int,
+                 exactly_names: bool = False):
+    """-> (files, root suite path, [HierCase]).
+    Directories: the root suite r in h/, the sub-suite a in h/a/, the sub-suite b in h/b/ (siblings: r lists a and b)
+    or h/a/b/ (chain: a lists b).  Suite files are <tag>.suite, listed by file name - or exactly.suite, listed by
+    the name of the directory.  The suite <t> lists the cases <t>1.case .. <t>N.case beside it; the first case of a
+    suite holds the contents mask `cmask`, the second one the complement.
+    order: bit 0 - [cases] is written before [suites]; bit 1 - the sub-suites / the cases are listed in reverse."""
+    tags = hier_suite_tags(shape)
+    dirs = {'r': 'h', 'a': 'h/a', 'b': 'h/a/b' if shape == 'chain' else 'h/b'}
+    subs = {'r': [t for t in tags[1:] if not (shape == 'chain' and t == 'b')],
+            'a': ['b'] if shape == 'chain' else [], 'b': []}
+    cases_first, rev = bool(order & 1), bool(order & 2)
+
+    def suite_path(t):
+        return dirs[t] + '/' + ('exactly.suite' if exactly_names else t + '.suite')
+
+    files = {}
+    cases = []
+    for t in tags:
+        names = ['%s%d.case' % (t, i + 1) for i in range(n_cases[t])]
+        for i, n in enumerate(names):
+            c = Contents('%s%d' % (t, i + 1), cmask if i % 2 == 0 else ALL_BITS - cmask)
+            files[dirs[t] + '/' + n] = case_file_text(c)
+            cases.append(HierCase(dirs[t] + '/' + n, t, suite_path(t), c))
+        sub_refs = [os.path.relpath(dirs[u] if exactly_names else suite_path(u), dirs[t]) for u in subs[t]]
+        if rev:
+            names, sub_refs = names[::-1], sub_refs[::-1]
+        sec_s = (['[suites]'] + sub_refs) if sub_refs else []
+        sec_c = (['[cases]'] + names) if names else []
+        ls = (sec_c + sec_s) if cases_first else (sec_s + sec_c)
+        ls += suites[t].lines(True)
+        files[suite_path(t)] = '\n'.join(ls) + '\n'
+    return files, suite_path('r'), cases
+
+
+def hier_observe(shape: str, suites: Dict[str, Contents], n_cases: Dict[str, int], cmask: int, order: int,
+                 exactly_names: bool = False, oracle_bug: bool = False):
+    """Writes the hierarchy, runs the REAL main program on the root suite, and on every case alone with
+    `--suite THE-SUITE-THAT-LISTS-IT` (and without --suite if the suites are named exactly.suite).
+    -> [(what, observed, expected)] as k3_observe; the reference: the contents of the suite that lists the case -
+    of no other suite of the hierarchy - apply to it, in the same way in the suite run and alone."""
+    files, root, cases = hier_fixture(shape, suites, n_cases, cmask, order, exactly_names)
+    out = []
+    w = World(files)
+    try:
+        r = w.run(['suite', root])
+        pc = r.per_case()
+        if pc is None or not r.cwd_preserved or r.sandboxes_left or not isinstance(r.rc, int):
+            return [('suite', 'malformed suite run: rc=%r out=%r err=%r' % (r.rc, r.out, r.err), None)]
+        # every case of the hierarchy is processed exactly once (in which order is not part of this property)
+        in_suite = {}
+        for name, ident, evs in pc:
+            in_suite.setdefault(os.path.normpath(name), []).append((ident, keys(evs)))
+        if sorted(in_suite) != sorted(c.path for c in cases) or any(len(v) != 1 for v in in_suite.values()):
+            return [('suite', 'cases processed: %r' % ([c[0] for c in pc],), None)]
+        for c in cases:
+            own = suites[c.suite_tag]
+            if oracle_bug and c.suite_tag != 'r':
+                own = suites['r']  # seeded oracle error: the cases of a sub-suite get the contents of the root suite
+            exp = expected_case_run(own, c.contents, c.file, c.dir)
+            got = in_suite[c.path][0]
+            out.append(('suite: ' + c.path, got, exp))
+            alone = w.run(['--suite', c.suite_path, c.path])
+            obs = (alone.identifier(), keys(alone.events()))
+            if not alone.cwd_preserved or alone.sandboxes_left or not isinstance(alone.rc, int):
+                obs = 'malformed run: rc=%r' % (alone.rc,)
+            out.append(('--suite %s %s' % (c.suite_path, c.path), obs, exp))
+            out.append(('in the suite run as alone: ' + c.path, got, obs))
+            if exactly_names:
+                beside = w.run([c.path])
+                out.append(('beside exactly.suite: ' + c.path, (beside.identifier(), keys(beside.events())), exp))
+        all_ok = all(v[0][0] in ('PASS', 'XFAIL', 'SKIPPED') for v in in_suite.values())
+        if (r.rc == 0) != all_ok:
+            out.append(('suite', 'exit code %r' % (r.rc,), None))
+    finally:
+        w.close()
+    return out
 
 
 # ----------------------------------------------------------------------------- K4: histories of real cases in one suite run
